@@ -13,7 +13,8 @@ Enumerated (reflectively, see mc/c10_lib.py):
               default), path2workspace, InputFile.read_ui_json / data setter, monitored_directory_copy,
               Workspace.save_as, close/open, a second handle asking for r+, repack, context managers;
   sequences   depth 1: every entry point of every scene (quick: one representative per
-              (defining class, member, kind, storage); thorough: all);
+              (defining class, member, kind, storage) + helpers and Workspace mutators on the file holding
+              every class; thorough: all);
               depth 2: ordered pairs (A ; B), A any entry point or helper, B a mutator or helper, over the
               entry points of a scene - quick: getter -> mutator pairs of the Points scene and helper pairs;
               thorough: for every pair scene, every pair in which A or B is an entry point not already
@@ -86,7 +87,10 @@ def enumerate_cases(ctx, described):
     for d in described:
         for op in d["ops"] + (helpers if d["scene"] in ("Points", "ALL", "DrillholeGroup") else []):
             key = op_key(op)
-            if ctx.quick and key in seen and d["scene"] != "ALL":
+            if ctx.quick and d["scene"] == "ALL":  # the big file: helpers and the mutating Workspace entry points only
+                if op["role"] != "mutator" and op["k"] != "helper":
+                    continue
+            elif ctx.quick and key in seen:
                 continue
             seen.add(key)
             singles.append({"scene": d["scene"], "ops": [_strip(op)]})
